@@ -191,6 +191,11 @@ structure Op where
   overwrite : Bool          -- install: CLIInstallOptions.Overwrite
   srcIsDir : Bool           -- install: PluginPath is a directory
   srcBase : Text            -- install: base name of PluginPath
+  srcIn : Text              -- install: `[]` = the source is outside the plugin root; else the name of
+                            -- the directory of the plugin root the source is (srcIsDir) or lies in;
+                            -- `entries` then describe what that directory holds
+  viaLink : Bool            -- install: PluginPath is a symbolic link to the source directory, resp. a file
+                            -- below such a link (the guard resolves links; the directory walk does not)
   entries : List Entry      -- directory: its entries (any order); file: `[the file]`; `[]`: no such path;
                             -- plant: the regular files the planted directory holds
   deriving Repr, FromJson, ToJson
@@ -309,8 +314,11 @@ def locateFile (es : List Entry) : Option Located :=
   | [e] => if e.kind == .file && e.exec then mkLocated e.toFile false else none
   | _ => none
 
+/-- `filepath.WalkDir` does not follow a symbolic link given as its root: a source DIRECTORY
+reached through a link shows no file at all ("no plugin executable file was found");
+a file below a linked directory is found as usual -/
 def locate (op : Op) : Option Located :=
-  if op.srcIsDir then locateDir op.entries else locateFile op.entries
+  if op.srcIsDir then (if op.viaLink then none else locateDir op.entries) else locateFile op.entries
 
 /-- files that `CopyToDir` / `CopyDirToDir` put into the plugin directory -/
 def copied (op : Op) (loc : Located) : List File :=
@@ -371,13 +379,20 @@ def versionRule (st : State) (overwrite : Bool) (nw : New) : Except Err (Option 
 def replace (st : State) (nw : New) : State :=
   putBy Plugin.name ⟨nw.name, nw.files⟩ (delBy Plugin.name nw.name st)
 
+/-- the source is the plugin's own installation directory or lies in it (plugin names are
+single path elements, so "inside `<root>/<name>`" = "in the root directory called `<name>`") -/
+def insideOwn (op : Op) (nw : New) : Bool := !op.srcIn.isEmpty && op.srcIn == nw.name
+
 def install (st : State) (op : Op) : Outcome × State :=
   match newOf op (locate op) with
   | none => (⟨.other, none, none⟩, st)
   | some nw =>
     match versionRule st op.overwrite nw with
     | .error e => (⟨e, none, none⟩, st)
-    | .ok ex => (⟨.ok, ex, some nw.version⟩, replace st nw)
+    | .ok ex =>
+      -- isPathWithin(PluginPath, <root>/<name>): the clean-up would remove the source
+      if insideOwn op nw then (⟨.other, none, none⟩, st)
+      else (⟨.ok, ex, some nw.version⟩, replace st nw)
 
 def uninstall (st : State) (n : Text) : Outcome × State :=
   if !validName n then (⟨.other, none, none⟩, st)
@@ -471,7 +486,7 @@ def specLocateDir (es : List Entry) : Option Located :=
   | _ => none
 
 def specLocate (op : Op) : Option Located :=
-  if op.srcIsDir then specLocateDir op.entries else locateFile op.entries
+  if op.srcIsDir then (if op.viaLink then none else specLocateDir op.entries) else locateFile op.entries
 
 def specNew (op : Op) : Option New := newOf op (specLocate op)
 
@@ -538,7 +553,8 @@ def cInstallWhenAllowed : Triple → Bool
     match specNew op with
     | none => s.err != .ok
     | some nw =>
-      match existingR R nw.name with
+      if insideOwn op nw then s.err != .ok       -- a source inside the plugin's own directory is refused
+      else match existingR R nw.name with
       | none => s.err == .ok
       | some p => !(op.overwrite || higher nw.version p) || s.err == .ok
 
